@@ -1736,6 +1736,8 @@ impl FileSnapshotter<'_> {
             let metadata = match disk_path.symlink_metadata() {
                 Ok(metadata) => Some(metadata),
                 Err(err) if err.kind() == io::ErrorKind::NotFound => None,
+                // A parent directory was replaced by a file, so the path is gone.
+                Err(err) if err.kind() == io::ErrorKind::NotADirectory => None,
                 Err(err) => {
                     return Err(SnapshotError::Other {
                         message: format!("Failed to stat file {}", disk_path.display()),
